@@ -372,6 +372,7 @@ template <class Ring> struct RingSeq {
         typedef typename RI::Residu_t RR;
         RR size = IO<RR>::parse(sz);
         std::unique_ptr<RI> it(new RI(F, seed, size));
+        std::unique_ptr<RI> shadow;            // the iterator the current one was copied / assigned from: must go on alike
         std::ostringstream o;
         E r; F.init(r);
         for (size_t k = 0; k < ops.size(); ++k) {
@@ -383,10 +384,16 @@ template <class Ring> struct RingSeq {
             else if (op == 'R') r = it->random();
             else if (op == 'n') { GeneralRingNonZeroRandIter<Ring, RI> nz(*it); nz.random(r); }
             else if (op == 'm') { GeneralRingNonZeroRandIter<Ring, RI> nz(*it); GeneralRingNonZeroRandIter<Ring, RI> nz2(nz); nz2(r); }
-            else if (op == 'C') { RI* n = new RI(*it); it.reset(n); continue; }
-            else if (op == 'A') { RI* n = new RI(F, (seed + 17) ? seed + 17 : 17, size); E t; F.init(t); n->random(t); if (!Assign<RI>::go(*n, *it)) { delete n; return "UNSUPPORTED"; } it.reset(n); continue; }
+            else if (op == 'C') { RI* n = new RI(*it); shadow.reset(it.release()); it.reset(n); continue; }
+            else if (op == 'A') { RI* n = new RI(F, (seed + 17) ? seed + 17 : 17, size); E t; F.init(t); n->random(t); if (!Assign<RI>::go(*n, *it)) { delete n; return "UNSUPPORTED"; } shadow.reset(it.release()); it.reset(n); continue; }
             else return "UNKNOWN-OP";
-            o << rawshow<E>(r) << ":" << Val<Ring>::show(F, r) << (F.isZero(r) ? "z" : "") << " ";
+            o << rawshow<E>(r) << ":" << Val<Ring>::show(F, r) << (F.isZero(r) ? "z" : "");
+            if (shadow) {
+                E c; F.init(c);
+                if (op == 'n' || op == 'm') { GeneralRingNonZeroRandIter<Ring, RI> nz(*shadow); nz.random(c); } else shadow->random(c);
+                o << "=" << rawshow<E>(c);
+            }
+            o << " ";
         }
         return o.str();
     }
